@@ -6,6 +6,7 @@ use vcore::Report;
 pub mod c01_commit;
 pub mod c05_revoke;
 pub mod c09_order;
+pub mod c10_restart;
 
 pub struct Verdicts<'a> {
 	pub rep: &'a mut Report,
